@@ -62,6 +62,9 @@ func (c *resolver) addToken(name, id string, t ast.RawType, space ast.LexemeAttr
 	if prev, exists := c.ids[id]; exists {
 		c.Errorf(n, "%v and %v get the same ID in generated code", name, prev)
 	}
+	if !ident.IsValid(id) {
+		c.Errorf(n, "%v cannot be turned into a valid identifier (got %q)", name, id)
+	}
 
 	sym := grammar.Symbol{
 		Index:  len(c.Syms),
@@ -92,6 +95,9 @@ func (c *resolver) addNonterms(m *syntax.Model) {
 		id := ident.Produce(name, ident.CamelCase)
 		if prev, exists := c.ids[id]; exists {
 			c.Errorf(nt.Origin, "%v and %v get the same ID in generated code", name, prev)
+		}
+		if !ident.IsValid(id) {
+			c.Errorf(nt.Origin, "%v cannot be turned into a valid identifier (got %q)", name, id)
 		}
 		index := len(c.Syms)
 		sym := grammar.Symbol{
